@@ -25,7 +25,7 @@ reg(Prop('C11', [
              'unencodable_is_error', 'encodable_is_ok', 'dangling_ref_is_error', 'dangling_ref_invalid_reference', 'patch_no_panic', 'file_index_roundtrip', 'fixups_all_resolve',
              'attr_read_by_reader', 'abbrevs_read_by_reader', 'unit_read_by_reader',
              'base_types_first', 'base_types_first_perm', 'size_no_panic', 'write_no_panic', 'calc_no_panic', 'write_tree_no_panic',
-             'exprloc_attr_size_write', 'exprloc_attr_roundtrip', 'exprloc_forward_ref', 'glue_offsets_exact', 'glue_ref_is_mark', 'glue_ref_orphan'],
+             'exprloc_attr_size_write', 'exprloc_attr_roundtrip', 'exprloc_forward_ref', 'glue_offsets_exact', 'glue_ref_is_mark', 'glue_ref_orphan', 'glue_ref_operand'],
     explored_only=[
         'model-level composition with the reader models is PROVED (attr_read_by_reader: Attr.parse_attribute; abbrevs_read_by_reader: AbbrevRd.parse_abbrevs; unit_read_by_reader: DieRd raw entry reader via Forest.enc_forest + C02 raw_is_preorder); the step from those reader models to gimli::read itself is C02/C03\'s correspondence plus this harness oracle — every case is read back '
         'with gimli\'s reader and its semantic dump (tags, nesting, attribute meanings, strings/ranges/locations/file names resolved, references as entry identities) '
@@ -37,7 +37,7 @@ reg(Prop('C11', [
         'PROVED: exprloc_attr_size_write (the x_size/x_out hypothesis discharged by C15 expr_size), exprloc_attr_roundtrip (C03 attribute reader + C07 decoder on the written attribute, '
         'operations laid out from attribute position + prefix, fix-ups = those of that layout), exprloc_forward_ref, glue_offsets_exact (the composed calculate_offsets / write passes ARE '
         'UnitWr.calc / write_die on one instantiated tree, so offsets_exact / roundtrip / unit_read_by_reader apply with die_expr_ok discharged; the table the expressions were written under '
-        'maps every tree entry to its DIE position), glue_ref_is_mark / glue_ref_orphan; tied by stream c11.glue (bytes of five sections + three fix-up lists vs Dwarf::write). '
+        'maps every tree entry to its DIE position), glue_ref_operand (end to end: the unit-relative operand of a typed op / call / parameter_ref = WMark position of its target minus the unit offset), glue_ref_is_mark / glue_ref_orphan; tied by stream c11.glue (bytes of five sections + three fix-up lists vs Dwarf::write). '
         'Still opaque: the line program offset; still not composed in Coq: gunit_write / gtable_write as a whole (header, length patch, three write_debug_info_fixups passes over '
         'several units) — their pieces are proved, the assembly is tied by c11.glue only',
         'cross-unit DebugInfoRef fix-ups: success implies every fix-up resolved (theorem); that the patched value is the target\'s position follows from offsets_exact per unit, '
